@@ -160,6 +160,17 @@ where
         let (layer_queries, layer_proofs) =
             proof.parse_layers::<E, H, V>(domain_size, folding_factor)?;
 
+        // there must be one commitment per layer and one for the remainder; otherwise the
+        // verifier would run out of layers to read
+        if layer_commitments.len() != layer_queries.len() + 1 {
+            return Err(DeserializationError::InvalidValue(format!(
+                "expected {} FRI layer commitments for {} layers, but was {}",
+                layer_queries.len() + 1,
+                layer_queries.len(),
+                layer_commitments.len()
+            )));
+        }
+
         Ok(DefaultVerifierChannel {
             layer_commitments,
             layer_proofs,
